@@ -713,6 +713,85 @@ def shard_d2(arg):
     return p
 
 
+# constant-only concatenations: every operand is a compile-time constant, at least one folds to Markup, at least
+# one is a plain literal with metacharacters (Concat.as_const must behave like runtime markup_join)
+CONCAT_SAFE = (
+    ("e", '("b"|e)'), ("e-taint", "(%s|e)" % LIT), ("escape", '("b"|escape)'), ("forceescape", '("b"|forceescape)'),
+    ("xmlattr", '({"k": "v"}|xmlattr)'), ("tojson", '("b"|tojson)'), ("urlize", '("http://a.bc/d"|urlize)'),
+)
+CONCAT_PLAIN = (("str", '"b"'), ("int", "2"))
+
+
+def concat_cases(maxlen):
+    """(labels, literal expression, data expression): 2..maxlen operands, >= 1 tainted literal, >= 1 safe constant."""
+    menu = (("literal", None),) + CONCAT_SAFE + CONCAT_PLAIN
+    safe = {n for n, _ in CONCAT_SAFE}
+    for k in range(2, maxlen + 1):
+        for ops in itertools.product(menu, repeat=k):
+            names = [n for n, _ in ops]
+            if "literal" not in names or not (safe & set(names)):
+                continue
+            lit = " ~ ".join(LIT if e is None else e for _, e in ops)
+            dat = " ~ ".join("x" if e is None else e for _, e in ops)
+            yield tuple(names), lit, dat
+
+
+def shard_concat(arg):
+    frame_names, maxlen, modes = arg
+    p = core.Part()
+    for fn in frame_names:
+        frame = FRAMES[fn]
+        for names, lit, dat in concat_cases(maxlen):
+            for mode in modes:
+                outs = []
+                for expr in (lit, dat):
+                    templates = build(frame, expr, mode)
+                    p.evals += 1
+                    st, out = render(mode, templates)
+                    outs.append((st, out))
+                    if st != "ok":
+                        p.count("carrier_errors")
+                        p.count("err:" + out)
+                        continue
+                    kind = oracle_kind((), templates)
+                    if ESCAPED.search(out):
+                        p.sig((fn, "concat", names, expr is lit))
+                        p.count("taint_reached_output_escaped")
+                    leak = leak_of(out, kind)
+                    if leak:
+                        # narrow the signature to an adjacent pair of operands when that already leaks
+                        label = "~".join(names)
+                        culprit = _concat_culprit(frame, mode, names, expr is lit, kind) or label
+                        p.violation("C15/leak/const-concat/%s%s" % (
+                            "literal" if expr is lit else "data",
+                            "" if mode in ("static", "select") else "@" + ("volatile" if "flag" in mode else mode)), {
+                            "msg": "mode=%s templates=%r rendered %r: raw %r in the output (oracle %s; smallest leaking "
+                                   "operand pair: %s)" % (mode, templates, out, leak, kind, culprit),
+                            "mode": mode, "templates": templates, "output": out, "script": script_for(mode, templates)})
+                if outs[0][0] == "ok" and outs[1][0] == "ok" and outs[0][1] != outs[1][1]:
+                    p.violation("C15/const-concat-differs-from-data", {
+                        "msg": "mode=%s frame=%s: %r rendered %r but with the literal passed as data (%r) %r" % (
+                            mode, fn, lit, outs[0][1], dat, outs[1][1]),
+                        "mode": mode, "templates": build(frame, lit, mode), "script": script_for(mode, build(frame, lit, mode))})
+        p.sample({"frame": fn, "expression": lit, "data_variant": dat}, cap=1)
+    p.count("cases_const_concat", p.evals)
+    return p
+
+
+def _concat_culprit(frame, mode, names, literal, kind):
+    menu = dict((("literal", LIT if literal else "x"),) + CONCAT_SAFE + CONCAT_PLAIN)
+    for i in range(len(names) - 1):
+        pair = names[i:i + 2]
+        if "literal" not in pair:
+            continue
+        expr = " ~ ".join(menu[n] for n in pair)
+        templates = build(frame, expr, mode)
+        st, out = render(mode, templates)
+        if st == "ok" and leak_of(out, oracle_kind((), templates)):
+            return "~".join(pair)
+    return None
+
+
 def shard_frames(arg):
     """data-in frames x values (no carrier) x modes, plus thin values."""
     frame_names, vals, modes = arg
@@ -761,6 +840,9 @@ def run(ctx: core.Ctx):
         shards.append((shard_frames, (fr, allv, MODES)))
     shards.append((shard_frames, (["out"], V_THIN, MODES)))
     qmodes = ("static", "blk-flag-off") if q else MODES
+    # 2b. constant-only concatenations (compile-time folded) and their data variants
+    for fn in (("out",), ("set", "macro-default", "out-adjacent")):
+        shards.append((shard_concat, (fn, 3, MODES if fn == ("out",) or not q else qmodes)))
     # 3. data-out frames (Markup-valued results) x every carrier
     for f in DATA_OUT:
         for u in units:
